@@ -29,6 +29,18 @@ Loop(given, ts, remaining, started, out) ==
        ELSE Loop(given, ts + 1, remaining - 1, TRUE, Append(out, Find(given, ts)))
 ImplFill(given, start, end) == Loop(given, start, (end - start) + 1, FALSE, <<>>)
 
+\* named deviation (NOT the code): the `started` flag replaced by a tracked last close that is tested for
+\* truthiness (`last_close or first_open`): a previous close of exactly 0 falls back to the first known open
+NoClose == -999999
+RECURSIVE LoopT(_, _, _, _, _)
+LoopT(given, ts, remaining, lastClose, out) ==
+  IF remaining <= 0 THEN out
+  ELSE IF Matches(given, ts) = {}
+       THEN LoopT(given, ts + 1, remaining - 1, lastClose,
+                  Append(out, FlatAt(ts, IF lastClose # NoClose /\ lastClose # 0 THEN lastClose ELSE given[1][2])))
+       ELSE LoopT(given, ts + 1, remaining - 1, Find(given, ts)[3], Append(out, Find(given, ts)))
+ImplFillTruthy(given, start, end) == LoopT(given, start, (end - start) + 1, NoClose, <<>>)
+
 \* ---- property (given: strictly increasing timestamps, non-empty) ------------------------------
 Inside(given, start, end) == {j \in 1..Len(given) : given[j][1] >= start /\ given[j][1] <= end}
 FillVerdict(given, start, end, out) ==
